@@ -208,6 +208,7 @@ type pullStream struct {
 	name        string
 	mask        *fieldmaskpb.FieldMask
 	updatesOnly bool
+	unsynced    bool // updates-only and not yet known to be subscribed
 	cancel      context.CancelFunc
 	mu          sync.Mutex
 	msgs        []proto.Message // resource values received (each change)
@@ -263,6 +264,12 @@ func runTriple(t *rapid.T, e serverEntry, tr triple) string {
 		if fd := req.ProtoReflect().Descriptor().Fields().ByName("updates_only"); fd != nil && updatesOnly {
 			req.ProtoReflect().Set(fd, protoreflect.ValueOfBool(true))
 		}
+		// an updates-only stream gives no sign of having subscribed: watch for the resource's forwarding goroutine, which
+		// is started right after the listener is registered
+		var pullersBefore map[string]bool
+		if updatesOnly {
+			pullersBefore = lib.GoroutineIDs(pullGoroutines...)
+		}
 		cs, err := conn.NewStream(sctx, &grpc.StreamDesc{ServerStreams: true}, method(tr.pull))
 		if err != nil {
 			fail("opening %s: %v", tr.pull.Name(), err)
@@ -298,6 +305,11 @@ func runTriple(t *rapid.T, e serverEntry, tr triple) string {
 				}
 			}
 		}()
+		if updatesOnly && !lib.WaitNewGoroutine(pullersBefore, 5*time.Second, pullGoroutines...) {
+			// not observed: deliveries are still checked, but none is demanded before the stream has shown it is subscribed
+			ps.unsynced = true
+			lib.Ev.Class("updates-only stream: subscription not observed (delivery not demanded until its first message)")
+		}
 		cur := get(nil)
 		emptyKnown := false
 		if !updatesOnly && proto.Size(cur) == 0 && strings.Contains(e.Name, "openclosepb") && lib.IsKnown("C14:openclose:no-initial-message-when-empty") {
@@ -385,12 +397,19 @@ func runTriple(t *rapid.T, e serverEntry, tr triple) string {
 			for si, ps := range streams {
 				p := lib.RefProject(resp, ps.mask)
 				ps.allowed = append(ps.allowed, p)
-				must := significantDiff(p, ps.last)
+				must := significantDiff(p, ps.last) && !ps.unsynced
 				if err := awaitNext(ps, ps.allowed, must, ps.mask); err != nil {
 					fail("stream %d (mask %s updatesOnly=%v) after a successful update: %v", si, lib.MaskString(ps.mask), ps.updatesOnly, err)
 				}
 				if must {
 					ps.last, ps.allowed = p, nil
+				}
+				if ps.unsynced {
+					ps.mu.Lock()
+					if len(ps.msgs) > 0 {
+						ps.unsynced = false
+					}
+					ps.mu.Unlock()
 				}
 			}
 		}
@@ -416,6 +435,9 @@ func runTriple(t *rapid.T, e serverEntry, tr triple) string {
 // When must is set it blocks (bounded) until the last allowed value has been delivered.
 // compositeServices update their resource in several steps (one collection write per part): their streams may show
 // intermediate aggregates between two responses, so only "the response's value arrives" is demanded of them.
+// pullGoroutines: the forwarding goroutines every resource subscription starts once its listener is registered.
+var pullGoroutines = []string{"resource.(*Value).Pull.func", "resource.(*Collection).Pull.func"}
+
 var compositeServices = map[string]bool{"smartcore.traits.OpenCloseApi": true}
 
 func awaitNext(ps *pullStream, allowed []proto.Message, must bool, mask *fieldmaskpb.FieldMask) error {
